@@ -599,9 +599,9 @@ def check_ctor_routes(ctx, rep, rng, count):
 
 WRAPPED = ('getitem', 'getat', 'getslice', 'setitem', 'setat', 'setslice', 'getattr', 'setattr', 'replace', 'ctor-kw',
            'ctor-kw-strict', 'from_dataframe', 'export')
-LITERAL = ('contains', 'eval', 'addvar')
+LITERAL = ('contains', 'eval', 'addvar', 'setpref')
 K_PATHS = ['getitem', 'getat', 'getslice', 'setitem', 'setat', 'setslice', 'getattr', 'setattr', 'contains', 'replace',
-           'ctor-kw', 'ctor-kw-strict', 'from_dataframe', 'addvar', 'export', 'eval']
+           'ctor-kw', 'ctor-kw-strict', 'from_dataframe', 'addvar', 'export', 'export', 'eval', 'setpref']
 NEW_VARS = ['W', 'Z2', 'extra_v']
 
 
@@ -663,6 +663,9 @@ def gen_form_case(rng):
                 continue
             op['names'] = [spec(form, new_vars.pop())]
             op['v'] = value()
+        elif k == 'setpref':
+            ts = rng.sample(variables, min(len(variables), rng.choice([1, 1, 2])))
+            op['names'] = [spec(form, rng.choice(by[t])) for t in ts]
         elif k == 'eval':
             x, y = rng.choice(variables), rng.choice(variables)
             text = rng.choice([f'{x} + {y}', f'{x}[-1] * 2', f'{x}', rng.choice(list(m) or [x]) + ' + 1'])
@@ -709,6 +712,9 @@ def form_apply(obj, op, names, span, n, strict, aliased):
                 setattr(obj, nm, op['v'])
             elif k == 'replace':
                 obj.replace_values(**{x: v for x, v in zip(names, op['vs'])})
+            elif k == 'setpref':
+                if aliased:                   # (the class without the mixin has no such attribute)
+                    obj.preferred_names = list(names)
             elif k == 'addvar':
                 obj.add_variable(nm, op['v'])
                 return ('ok', fp(obj[plain_text(nm)]), None)
@@ -761,6 +767,7 @@ def run_form_case(ctx, rep, case, tcases=None):
                     'instance differs from the one of the class that declares the same names as plain str: '
                     + nice_diff(_state(a_f), _state(a_s)), case)
         return 'declaration'
+    cur_pref = list(pref)
     for i, op in enumerate(case['ops']):
         k = op['k']
         specs = op['names']
@@ -790,17 +797,19 @@ def run_form_case(ctx, rep, case, tcases=None):
                         f'{_show(r_as, r_af)}' + ('' if s_af == s_as else '; state: ' + nice_diff(s_af, s_as))
                         + f' (ALIASES={m}, declared as {decl}; the class without the mixin treats both forms alike)', case)
             return 'form'
-        literal_alias = (not wrapped) and (any(x in b.strip_self(m) for x in texts) or k == 'eval')
+        literal_alias = (not wrapped) and (any(x in b.strip_self(m) for x in texts) or k in ('eval', 'setpref'))
         if not literal_alias and (r_af[:2] != r_tf[:2] or s_af != s_tf):
             rep.violate(key, f'op {i} {k} through {shown} gave {_show(r_af, r_tf)}; the class without the mixin through '
                         f'the canonical names {[b.chain_end(m, x) for x in texts]} in the same form gave {_show(r_tf, r_af)}'
                         + ('' if s_af == s_tf else '; state: ' + nice_diff(s_af, s_tf)) + f' (ALIASES={m})', case)
             return 'twin'
         if k == 'export' and r_af[0] == 'ok':
-            regime = export_labels_ok(m, pref, [plain_text(c) for c in t_s.to_dataframe().columns], r_af[2])
+            regime = export_labels_ok(m, cur_pref, [plain_text(c) for c in t_s.to_dataframe().columns], r_af[2])
             if regime is not None:
-                rep.violate(key, f'op {i} export: ' + regime + f' (ALIASES={m} declared as {decl}, preferred {pref})', case)
+                rep.violate(key, f'op {i} export: ' + regime + f' (ALIASES={m} declared as {decl}, preferred {cur_pref})', case)
                 return 'export'
+        if k == 'setpref' and r_as[0] == 'ok':
+            cur_pref = list(texts)
     if tcases is not None:
         names_all = [k for k, _ in items] + variables + ['undefined_x', 'nosuch']
         for f in FORMS:
